@@ -645,6 +645,12 @@ class Checker:
 		self.ctx = ctx
 		self.known = {}
 
+	def fail(self, kind, what, case):
+		"""the failure list of a run is bounded: correspondence failures must not crowd out failing inputs of the property"""
+		self.ctx.count(f'failures:{kind}')
+		if self.ctx.counters[f'failures:{kind}'] <= (10 if 'corr' == kind else 30):
+			self.ctx.fail(kind, what, case)
+
 	def known_finding(self, signature, what, case):
 		self.ctx.count(f'known-defect:{signature}')
 		if signature not in self.known:
@@ -673,11 +679,11 @@ class Checker:
 						f'`inline`/`abstract` (or is named import/struct/using/enum) is lexed with the top-level keyword set; line {real[2]}: '
 						f'{text.splitlines()[real[2] - 1].strip()!r}'), case)
 					if model is not None and not model['ok']:
-						ctx.fail('corr', f'model rejects a document the grammar admits: {model}', case)
+						self.fail('corr', f'model rejects a document the grammar admits: {model}', case)
 					return
-				ctx.fail('property', f'well-formed document rejected by the parser ({real[1]} at line {real[2]}): {text[:300]!r}', case)
+				self.fail('property', f'well-formed document rejected by the parser ({real[1]} at line {real[2]}): {text[:300]!r}', case)
 			elif model is not None and model['ok']:
-				ctx.fail('corr', f'model accepts what the parser rejects ({real[1]} at line {real[2]}): {text[:300]!r}', case)
+				self.fail('corr', f'model accepts what the parser rejects ({real[1]} at line {real[2]}): {text[:300]!r}', case)
 			elif model is not None and real[2] is not None and model['line'] != real[2]:
 				ctx.count('error-line-differs')
 			return
@@ -700,27 +706,27 @@ class Checker:
 				else:
 					from .cats_common import diff_paths
 					differences = diff_paths(wanted, descriptors)[:5] if len(wanted) == len(descriptors) else [('count', len(wanted), len(descriptors))]
-					ctx.fail('property', f'descriptors are not what the document declares: {differences} in {text[:300]!r}', dict(case, differences=differences))
+					self.fail('property', f'descriptors are not what the document declares: {differences} in {text[:300]!r}', dict(case, differences=differences))
 					return
 			if imports != expected['imports']:
-				ctx.fail('property', f'imports differ: {imports} vs {expected["imports"]}', case)
+				self.fail('property', f'imports differ: {imports} vs {expected["imports"]}', case)
 		if model is not None:
 			if not model['ok']:
-				ctx.fail('corr', f'model rejects what the parser accepts (line {model["line"]}: {model["msg"]}): {text[:300]!r}', case)
+				self.fail('corr', f'model rejects what the parser accepts (line {model["line"]}: {model["msg"]}): {text[:300]!r}', case)
 				return
 			real_legacy = [cats_json.canon(item) for item in expected['descriptors']] if crlf_finding else descriptors
 			if [cats_json.canon(item) for item in model['legacy']] != real_legacy:
-				ctx.fail('corr', f'model and parser descriptors differ on {text[:300]!r}', dict(case, model=model['legacy'], real=descriptors))
+				self.fail('corr', f'model and parser descriptors differ on {text[:300]!r}', dict(case, model=model['legacy'], real=descriptors))
 				return
 			if not crlf_finding:
 				if model['wire'] != cats_json.schema_to_wire(nodes):
-					ctx.fail('corr', f'model and parser objects differ on {text[:300]!r}', dict(case, model=model['wire'], real=cats_json.schema_to_wire(nodes)))
+					self.fail('corr', f'model and parser objects differ on {text[:300]!r}', dict(case, model=model['wire'], real=cats_json.schema_to_wire(nodes)))
 					return
 				if model['render'] != [render_tree(node) for node in nodes]:
-					ctx.fail('corr', f'model render and str(node) differ on {text[:300]!r}', dict(case, model=model['render'], real=[render_tree(node) for node in nodes]))
+					self.fail('corr', f'model render and str(node) differ on {text[:300]!r}', dict(case, model=model['render'], real=[render_tree(node) for node in nodes]))
 			model_imports = [item[len('import:'):] for item in model['items'] if item.startswith('import:')]
 			if model_imports != imports:
-				ctx.fail('corr', f'model and parser imports differ: {model_imports} vs {imports}', case)
+				self.fail('corr', f'model and parser imports differ: {model_imports} vs {imports}', case)
 
 		# print the parsed declarations back and parse again (WFDecls: at least one declaration, at least one member per struct)
 		from catparser.ast import Struct
@@ -748,18 +754,18 @@ class Checker:
 			elif 'err' == reparsed[0] and 'UnexpectedToken' == reparsed[1] and is_quirk_site(printed, reparsed[2]):
 				self.known_finding(SIG_QUIRK, f'printed declarations are rejected (known defect {SIG_QUIRK}) at line {reparsed[2]}', dict(case, printed=printed))
 			else:
-				ctx.fail('property', f'print-and-reparse changes the descriptors ({reparsed[0]} {reparsed[1] if "err" == reparsed[0] else ""}): {printed[:400]!r}', dict(
+				self.fail('property', f'print-and-reparse changes the descriptors ({reparsed[0]} {reparsed[1] if "err" == reparsed[0] else ""}): {printed[:400]!r}', dict(
 					case, printed=printed))
 				return
 		ctx.count('print-reparse')
 		if model is not None and not crlf_finding:
 			printed = fixed_print(nodes)  # the model printer is the repaired printer (None placeholders, `not` as a name)
 			if model['print'] != printed:
-				ctx.fail('corr', f'model printer and the printer on real nodes differ: {model["print"][:300]!r} vs {printed[:300]!r}', dict(case, printed=printed))
+				self.fail('corr', f'model printer and the printer on real nodes differ: {model["print"][:300]!r} vs {printed[:300]!r}', dict(case, printed=printed))
 				return
 			second = self.model(model['print'])
 			if not second['ok'] or second['wire'] != model['wire']:
-				ctx.fail('corr', f'model: parse (print ds) differs from ds for {text[:300]!r}', dict(case, printed=model['print'], second=second))
+				self.fail('corr', f'model: parse (print ds) differs from ds for {text[:300]!r}', dict(case, printed=model['print'], second=second))
 
 
 def shipped_files():
